@@ -203,6 +203,11 @@ def sha_leaves(d):
   out = {}
   for k, v in d.items():
     a = np.ascontiguousarray(v)
+    if a.dtype.kind == 'f' and a.size and np.isnan(a).any():
+      # NaN sign/payload bits carry no meaning (and do not survive every
+      # transport); hash a canonical NaN
+      a = np.where(np.isnan(a), np.array(np.nan, a.dtype), a)
+      a = np.ascontiguousarray(a)
     out[k] = hashlib.sha256(
         (str(a.dtype) + str(a.shape)).encode() + a.tobytes()).hexdigest()[:16]
   return out
